@@ -67,6 +67,23 @@ CHECKS["C02"] = dict(
     engine="tlc+replay+trace-validation",
 )
 
+CHECKS["C06"] = dict(
+    built=True,
+    category="model_checking",
+    technique="TLA+ spec J2O_ControlFlow (lockstep refinement JAX vs ONNX Loop/If wiring) checked by TLC over all body/cond functions; every enumerated program executed on real exports in ORT; per-iteration Loop traces validated by J2O_ControlFlowTrace",
+    text=(
+        "TLC proves, for ALL functions body in [S->S], cond in [S->BOOLEAN] (|S|=3), all counted-loop bodies and bounds (incl. hi<=lo, negative lo), all scan "
+        "step functions and input sequences of length 0..3, all branch pairs and indices -1..2, and two-lane vmapped whiles, that the ONNX Loop/If wiring the "
+        "plugins emit refines the JAX construct step by step (state, iteration count, stacked outputs, halting). Every program TLC enumerated (tables are "
+        "model INPUTS, so one real export covers every body) is then run in ORT on the real exports - while, while-in-cond, vmap(while), fori per static "
+        "bounds, scan with static and symbolic length, scan-in-while, switch, cond - and must return exactly the predicted result (JAX eager cross-checks "
+        "the prediction). Per-iteration traces of the exported Loop are validated against the JAX machine by TLC; unsupported variants must raise."
+    ),
+    note="Trusted: ORT Loop/If/Scan kernels, ONNX reference evaluator for iteration traces, TLC. State domain |S|=3 (any terminating loop on it halts within 3 iterations); nesting covered by three nested templates, not exhaustively.",
+    design_ref="DESIGN.md §2 J2O_ControlFlow, §3 C06",
+    engine="tlc+replay+trace-validation",
+)
+
 TITLES = {}
 for line in (VERIF / "properties.jsonl").read_text().splitlines():
     if line.strip():
